@@ -431,6 +431,68 @@ pub fn run(tier: &str) -> Result<Report, String> {
         t.as_array_mut().unwrap().push(json!({"network": b.name, "all_coloured_sets": n, "q_choices": q_idx.len(), "r_choices": r_idx.len()}));
         rep.set("tiny_networks", t);
     }
+    // 3-variable networks (one colour, 8 states): a menu of 8 update functions per variable, every one of the
+    // 256 state sets as argument of every one-argument law and of the graph-library laws
+    {
+        let menu = |i: usize| -> Vec<String> {
+            let n = ["a", "b", "c"];
+            let (x, y) = match i {
+                0 => (n[1], n[2]),
+                1 => (n[0], n[2]),
+                _ => (n[0], n[1]),
+            };
+            vec!["false".into(), x.into(), y.into(), format!("!{x}"), format!("{x} & !{y}"), format!("{y} & !{x}"), format!("{x} | {y}"), n[i].into()]
+        };
+        let regs = "a -?? a; b -?? a; c -?? a; a -?? b; b -?? b; c -?? b; a -?? c; b -?? c; c -?? c";
+        let mut specs = vec![];
+        for (ia, fa) in menu(0).iter().enumerate() {
+            for (ib, fb) in menu(1).iter().enumerate() {
+                for (ic, fc) in menu(2).iter().enumerate() {
+                    if tier == "quick" && (ia + 3 * ib + 5 * ic) % 4 != 0 {
+                        continue;
+                    }
+                    specs.push(format!("{regs}; $a: {fa}; $b: {fb}; $c: {fc}"));
+                }
+            }
+        }
+        let one_arg: Vec<&Law> = all.iter().filter(|l| l.arity == 1).collect();
+        let res: Vec<Result<(u64, Vec<Violation>), String>> = specs
+            .par_iter()
+            .map(|text| {
+                let sp = crate::nets::spec(text);
+                let b = crate::bridge::Bound::new("menu3", &sp, 1).map_err(|e| format!("menu network {text}: {e:?}"))?;
+                let mut bad = vec![];
+                let mut cases = 0u64;
+                for m in 0..256u64 {
+                    let p = b.mk_set(&[m]);
+                    for law in &one_arg {
+                        cases += 1;
+                        if let Some(w) = check_law(law, &b.graph, &p, None, None) {
+                            if bad.len() < 2 {
+                                bad.push(Violation { case: json!({"kind": "law", "law": law.name, "net": b.spec, "aeon": b.aeon, "p": [m], "q": [0], "r": [0]}), what: format!("on [{}] with p={m:08b}: {w}", b.aeon.replace('\n', "; ")), size: 2 });
+                            }
+                        }
+                    }
+                    cases += 1;
+                    if let Some(w) = check_library(&b.graph, &p, &b.mk_set(&[m.rotate_left(3) & 0xff | (m >> 5)])) {
+                        if bad.len() < 2 {
+                            bad.push(Violation { case: json!({"kind": "law", "law": "library", "net": b.spec, "p": [m], "q": [m.rotate_left(3) & 0xff | (m >> 5)], "r": [0]}), what: format!("on [{}] with p={m:08b}: {w}", b.aeon.replace('\n', "; ")), size: 2 });
+                        }
+                    }
+                }
+                Ok((cases, bad))
+            })
+            .collect();
+        let mut total = 0u64;
+        for r in res {
+            let (c, bad) = r?;
+            total += c;
+            rep.violations.extend(bad.into_iter().take(2));
+        }
+        rep.evaluations += total * 2;
+        rep.add_count("law_instances_three_variable_menu", total);
+        rep.set("three_variable_menu_networks", json!(specs.len()));
+    }
     let _ = full_mask(1);
     // bundled models: one child job per (model, law)
     let limit = if tier == "quick" { 20.0 } else { 300.0 };
@@ -498,6 +560,6 @@ pub fn run(tier: &str) -> Result<Report, String> {
     rep.distinct_nontrivial = rep.extra.get("law_instances_tiny").and_then(|v| v.as_u64()).unwrap_or(0) + big_total;
     rep.set("laws", json!(all.iter().map(|l| format!("{}: {} {} {}", l.name, l.lhs, if l.rel == Rel::Eq { "=" } else { "⊆" }, l.rhs)).collect::<Vec<_>>()));
     rep.sample(json!({"law": "AU fixed point", "network": "con2", "p": [5, 9], "q": [2, 0], "meaning": "per-colour state masks of the wild-card sets; both sides evaluated by the tool and compared as sets"}));
-    rep.rule = format!("{} laws (fixed-point equations, dualities, inclusions, monotonicity in every argument, steady states as self-loops) + 3 graph-library laws (EF = reach_backward, AG = trap_forward, EU = reach_bwd in the restricted graph), each instantiated with wild-card arguments (on the tiny networks every law x first-argument set also with both sides submitted as one batch, in both orders, to model_check_multiple_extended_formulae_dirty): on the tiny networks {which:?} with EVERY coloured set as p (all pairs (p,q) when the network has <= 16 sets, or <= 256 in the thorough tier; otherwise q from a spread of 16, r from a spread of 4), anchored by the explicit-state oracle; on the bundled models {models:?} with a declared family (literals, conjunctions/disjunctions of two literals over the first 4 variables, each also cut by each half of the colour space, empty, unit, results of two formulae). distinct_nontrivial = number of law instances (distinct (law, argument tuple, network))", all.len());
+    rep.rule = format!("{} laws (fixed-point equations, dualities, inclusions, monotonicity in every argument, steady states as self-loops) + 3 graph-library laws (EF = reach_backward, AG = trap_forward, EU = reach_bwd in the restricted graph), each instantiated with wild-card arguments (also: every one-argument law and the library laws on every one of the 256 state sets of 512 (quick: 128) three-variable networks built from a menu of 8 update functions per variable; on the tiny networks every law x first-argument set also with both sides submitted as one batch, in both orders, to model_check_multiple_extended_formulae_dirty): on the tiny networks {which:?} with EVERY coloured set as p (all pairs (p,q) when the network has <= 16 sets, or <= 256 in the thorough tier; otherwise q from a spread of 16, r from a spread of 4), anchored by the explicit-state oracle; on the bundled models {models:?} with a declared family (literals, conjunctions/disjunctions of two literals over the first 4 variables, each also cut by each half of the colour space, empty, unit, results of two formulae). distinct_nontrivial = number of law instances (distinct (law, argument tuple, network))", all.len());
     Ok(rep)
 }
